@@ -88,7 +88,7 @@ def attrCondOps {α : Type} (attr value : Str) (equals : Bool) (A : CacheOps α)
   guardOps (fun m => if equals then attrLookup m attr == some value else attrLookup m attr != some value) A
 
 /-- `CacheProxy(cache)` forwards every call (`keys` is materialised as a list) -/
-def proxyOps {α : Type} (A : CacheOps α) : CacheOps α where
+def proxyCOps {α : Type} (A : CacheOps α) : CacheOps α where
   get := A.get
   getMeta := A.getMeta
   store := A.store
